@@ -5,6 +5,7 @@ from ..core import holds, violation, unrecognised
 from ..axes import chain, flat_args, apply_perm, PERMUTERS
 
 ID = "C08"
+ANCHORS = 'ablate.ablate,ablate.ablate_annotations,marginalize.marginalize,marginalize.marginalize_annotations,space.space,product.apply_pairwise,product.apply_product'.split(",")
 MIN_INSTANCES = 24
 EXPLANATION = (
     "ROLE rules: in marginalize/ablate/space the 'before' call of func receives the unmodified X (never rebound) and the "
